@@ -58,6 +58,9 @@ type c03Stack struct {
 	wrap func(context.Context) context.Context
 }
 
+// storeBacked: the authority keeps certificates in named objects (gcsca); memca keys them by key-version name
+func (st *c03Stack) storeBacked() bool { return strings.Contains(st.name, "gcsca") }
+
 // c03Kinds is the number of stacks; kind 3 is the production stack of c03_kms.go.
 const c03Kinds = 4
 
@@ -146,6 +149,8 @@ func runC03(c *Ctx) {
 				defer os.RemoveAll(vdir)
 				var primCerts []*x509.Certificate
 				var rootCert *x509.Certificate
+				// certificate objects the manifest records (<CN>-<subject serial>): the bootstrap's two
+				usedObj := map[string]bool{"root cn-1": true, "signer cn-2": true}
 				for state := 0; state <= nrot; state++ {
 					if state > 0 {
 						// rotation times in any order relative to each other, inside the root's validity
@@ -156,12 +161,37 @@ func runC03(c *Ctx) {
 						cn := []string{"signer cn", "signer cn", "signer cn b", fmt.Sprintf("signer cn %d", state)}[r.Intn(4)]
 						serial := int64([]int{2, 3, 3, 2 + state, 2 + state}[r.Intn(5)])
 						c.Count(fmt.Sprintf("rotate/cn-pool=%v,serial-repeat=%v", cn == "signer cn", serial != int64(2+state)))
+						if st.storeBacked() && usedObj[fmt.Sprintf("%s-%d", cn, serial)] {
+							// The object name is the one the manifest records for an earlier key version: gcsca.upload
+							// (after its "fix:" commit) refuses it even with --overwrite, and nothing may change —
+							// the recorded primary must still be the key that signs and verifies below.
+							before, _ := st.kc.CA.PrimarySigningKeyVersion(ctx0)
+							rctx := rotate.NewSigningKeyContext(ctx0, &rotate.SigningKeyContext{SigningKeyCommonName: cn,
+								SigningKeySerial: big.NewInt(serial), Now: rt})
+							_, err := rotate.Key(rctx)
+							// gcsca.Finalize edits its cached manifest before it uploads; after a failed Finalize the
+							// authority object has to re-read the stored manifest, as the next process would
+							if g, ok := st.kc.CA.(*gcsca.CertificateAuthority); ok {
+								g.Flush()
+							}
+							after, _ := st.kc.CA.PrimarySigningKeyVersion(ctx0)
+							c.Count("rotate/reused-object-refused=" + b2s(err != nil))
+							if err == nil || after != before {
+								c.Find("c03/rotate/reused-object-accepted/"+st.name, fmt.Sprintf("a rotation whose certificate object is recorded "+
+									"for an earlier key version was not refused (err=%v, primary %q -> %q)", err, before, after),
+									fmt.Sprintf("%s state=%d cn=%q serial=%d", st.name, state, cn, serial))
+								return
+							}
+							// the rotation of this state proper: a pair nobody used
+							cn, serial = fmt.Sprintf("signer cn %d", state), int64(100+state)
+						}
 						rctx := rotate.NewSigningKeyContext(ctx0, &rotate.SigningKeyContext{SigningKeyCommonName: cn,
 							SigningKeySerial: big.NewInt(serial), Now: rt})
 						if _, err := rotate.Key(rctx); err != nil {
 							c.Find("c03/rotate/failed/"+st.name, "fault-free rotate.Key failed: "+err.Error(), fmt.Sprintf("%s state=%d", st.name, state))
 							return
 						}
+						usedObj[fmt.Sprintf("%s-%d", cn, serial)] = true
 					}
 					// endorse in this state
 					img := cleanFirmware(2*1024*1024, byte(1+r.Intn(200)))
